@@ -142,7 +142,8 @@ class Scheduler(object):
 
 
 def mask(r):
-    return dict((k, v) for k, v in r.items() if k not in ('rid', '_hung'))
+    # the identifier itself differs from run to run; THAT the request was given one does not
+    return dict([(k, v) for k, v in r.items() if k not in ('rid', '_hung')] + [('has_rid', r.get('rid') not in (None, 'None'))])
 
 
 def impl(case):
